@@ -195,6 +195,12 @@ def run_schedule(sc, sched, seqs):
 
         def mk(i, calls):
             def fn():
+                if sc.get("own_backend") and i > 0:
+                    # this thread configures memento again (a pool initializer does): its calls go through ANOTHER backend object
+                    # on the same store directory
+                    b = make_backend(sc, base)
+                    verif_sched.coop_locks_in(b)
+                    set_env(b, base)
                 for call in calls:
                     call = tuple(call)
                     log("Start", i, call[:2])
